@@ -20,6 +20,7 @@ Definition dec_op (t : toks) : option (op * toks) :=
   | 12 :: r => Some (ODeepCopy, r)
   | 13 :: r => Some (OPickle, r)
   | 14 :: r => match dec_str r with Some (k, r') => Some (OMoveToEnd k, r') | None => None end
+  | 15 :: r => match dec_pair dec_items dec_items r with Some ((e, kw), r') => Some (OUpdateBoth e kw, r') | None => None end
   | _ => None
   end.
 
